@@ -70,7 +70,7 @@ var mbTypes = []block.Type{block.TxBlock, block.StateBlock, block.PeerBlock, blo
 func main() {
 	r := vk.Start("C33")
 	ceiling := r.N(2048, 4000)
-	r.Rule(fmt.Sprintf("one case = (miniblock count m in 0..%d, tx count t, distribution of the t hashes over the miniblocks, shard-id mode, type mode); t is the largest count for which the estimate still says 'fits' (boundary) in 2/3 of the cases, a random smaller count otherwise; bodies are built from block.MiniBlock values with 32-byte random hashes and marshalled as block.Body with the production GogoProtoMarshalizer. Non-trivial when the estimate says the body fits and m+t > 0; distinct = distinct (m bucket, distribution, id mode, type mode, boundary?) tuples. Second phase (proposer simulation): histories of 6..15 rounds on the real block size throttler + size computation driven like the block processor (ComputeCurrentMaxSize, Init, fill while IsMaxBlockSizeReached is false with AddNumMiniBlocks/AddNumTxs, marshal, Add, Succeed or not; bodies above the allowed size fail more often); styles: many tiny META/ALL reward miniblocks / mixed / few big. Third phase: 4..12 goroutines add known totals concurrently, a second instance gets the same totals sequentially, boundaries compared.", ceiling))
+	r.Rule(fmt.Sprintf("one case = (miniblock count m in 0..%d, tx count t, distribution of the t hashes over the miniblocks, shard-id mode, type mode); t is the largest count for which the estimate still says 'fits' (boundary) in 2/3 of the cases, a random smaller count otherwise; bodies are built from block.MiniBlock values with 32-byte random hashes and marshalled as block.Body with the production GogoProtoMarshalizer. Non-trivial when the estimate says the body fits and m+t > 0; distinct = distinct (m bucket, distribution, id mode, type mode, boundary?) tuples. Second phase (proposer simulation): histories of 6..15 rounds on the real block size throttler + size computation driven like the block processor (ComputeCurrentMaxSize, Init, whole miniblocks of 1..10000 txs admitted through IsMaxBlockSizeWithoutThrottleReached(1,n) and registered, then from-me miniblocks filled while the throttled IsMaxBlockSizeReached is false with AddNumMiniBlocks/AddNumTxs, nine fixed probe queries on both predicates re-asked after registrations (monotonicity), marshal, Add, Succeed or not; bodies above the allowed size fail more often); styles: many tiny META/ALL reward miniblocks / mixed / few big. Third phase: 4..12 goroutines add known totals concurrently, a second instance gets the same totals sequentially, boundaries compared.", ceiling))
 	r.Assume(
 		fmt.Sprintf("miniblock ceiling %d per body (assumption: a body holds one miniblock per (sender, receiver, type) per included header; the linear model undershoots by up to ~9 bytes per miniblock, so the margin is exhausted near the reported break-even count)", ceiling),
 		"tx hashes are 32 bytes; MiniBlock.Reserved is empty",
